@@ -505,6 +505,10 @@ class DISPENSO_CACHELINE_ALIGNED ThreadPool {
   // lock on the schedule path. Threads check own ring first in the steal order.
   ConcurrentObjectArena<Ring> rings_;
   std::atomic<size_t> numRings_{0};
+  // Number of rings ever constructed in the arena (it only grows). A producer that read numRings_
+  // before a shrinking resize() may still push into a ring beyond the new count; nobody polls that
+  // ring as "its own" any more, so threads that help from wait() scan all constructed rings.
+  std::atomic<size_t> ringsConstructed_{0};
 
   // Steal rings for non-locality work distribution.
   // Populated by schedule() (both proactive wake and no-sleeper paths).
@@ -754,7 +758,11 @@ inline bool ThreadPool::tryExecuteNextFromRings(size_t& startRing) {
   // could observe the grown count without the rings' construction being visible,
   // letting us index a not-yet-constructed ring (UB; SIGILL on weak-memory targets
   // like arm64).
-  size_t n = numRings_.load(std::memory_order_acquire);
+  //
+  // The scan covers every ring ever constructed, not only the current numRings_: after a shrinking
+  // resize() a producer that loaded the old count can still push a task into a ring above the new
+  // count, where no worker looks; without this the task was stranded and wait() spun forever.
+  size_t n = ringsConstructed_.load(std::memory_order_acquire);
   for (size_t i = 0; i < n; ++i) {
     size_t idx = (startRing + i) % n;
     if (rings_[idx].try_pop(task)) {
